@@ -108,13 +108,40 @@ def plan(prop, tier):
             jobs = [gen_job("c15", "native-debug", 150000, 16, timeout=1800), gen_job("c15", "native-release", 150000, 16, timeout=1800), gen_job("c15", "asan", 5000, 16, timeout=1800), gen_job("c15", "miri", 8, 16, timeout=2400)]
         return dict(jobs=jobs, level="exploration", rule=rule, floor_cells=["edit:remove", "edit:truncate", "edit:clear", "edit:set_len", "edit:extend", "edit:spare+set_len", "edit:reread", "native-release/c15"],
                     floor_evaluations=5000, assumptions=SIMK_ASSUMPTIONS, also=["C08"])
+    if prop == "C07":
+        return explorer_plan(
+            "c07", tier, 2500, 40000, GEN_RULE + "; restricted to descriptor-creating operations (open/socket/accept/multishot accept/pipe/to_direct/to_file, regular and direct), AsyncFd::close, standard-stream handles, 1-4 entry queues so that the synchronous close fallback runs; C07 oracle: descriptor ledger fed by the close(2) interposer, IORING_OP_CLOSE, files-update and the creating completions; direct indices live in 3000.. so that a descriptor closed as the wrong kind is unmistakable",
+            ["stdio-handle-dropped", "kind:SocketDirect", "kind:PipeDirect", "kind:Close", "kind:MultishotAccept", "drop:Single:in-flight", "drop:Single:completion-posted-not-consumed", "drop:Single:done-not-collected", "simk_closes"],
+        )
+    if prop == "C12":
+        import math
+        total = 31680
+        rule = ("enumeration of every drop order of 4 object sets (6-7 objects each: Ring, queue clones, regular/direct AsyncFd, never-polled/queued/in-flight/finished/multishot operations, ReadBufPool, ReadBuf) x {final sync-cancel cancels everything, one request completes normally first}; "
+                "orders that safe Rust cannot express (descriptor before an operation borrowing it) are skipped; ledgers: mapping, descriptor, allocation (tracking allocator), kernel tables (in-flight requests, buffer-ring registrations); distinct = distinct (set, order, mode)")
+        shards = 8 if tier == "quick" else 16
+        jobs = [gen_job("c12", "native-debug", math.ceil(total / shards), shards, timeout=900)]
+        if tier != "quick":
+            jobs += [gen_job("c12", "native-release", math.ceil(total / 16), 16, timeout=900), gen_job("c12", "asan", math.ceil(total / 16), 16, timeout=1800, lsan=False), gen_job("c12", "miri", 12, 16, timeout=2400)]
+        return dict(jobs=jobs, level="fault_enumeration", rule=rule, floor_cells=["set:0", "set:1", "set:2", "set:3", "ring-position:0", "ring-position:6", "sync-cancel-mode:1", "first:ReadBuf", "first:Pool"],
+                    floor_evaluations=20000, exhaustive=True, assumptions=SIMK_ASSUMPTIONS + ["real-kernel corroboration (E6) is not part of this check yet"], also=[])
+    if prop == "C18":
+        import math
+        total = 69300
+        rule = ("enumeration of 6300 configurations (queue sizes 1,2,3,8,32768,65536,max,0 x completion sizes x kernel thread/affinity/idle x single issuer/defer-taskrun x disabled x attach x direct descriptors) x 11 kernel answers "
+                "(success, 2 setup errnos, each of the 4 required feature bits withheld, 1st/2nd/3rd mapping refused, registration refused); ledgers before/after, parameter block decoded with the independent ABI table, working-ring round trip across the index wrap with seeded ring offsets; distinct = distinct (configuration, answer)")
+        shards = 8 if tier == "quick" else 16
+        jobs = [gen_job("c18", "native-debug", math.ceil(total / shards), shards, timeout=900)]
+        if tier != "quick":
+            jobs += [gen_job("c18", "native-release", math.ceil(total / 16), 16, timeout=900), gen_job("c18", "asan", math.ceil(total / 16), 16, timeout=1800), gen_job("c18", "miri", 25, 16, timeout=2400)]
+        return dict(jobs=jobs, level="fault_enumeration", rule=rule, floor_cells=["refuse:none", "refuse:setup", "refuse:feature-2", "refuse:feature-4", "refuse:feature-8", "refuse:feature-128", "refuse:mmap-1", "refuse:mmap-2", "refuse:mmap-3", "refuse:register", "result:ok", "result:err", "disabled-then-enabled", "granted-sq:4"],
+                    floor_evaluations=60000, exhaustive=True, assumptions=SIMK_ASSUMPTIONS + ["the madvise(MADV_DONTFORK) failure branch of the real mmap wrapper is bypassed by the hook and not covered"], also=[])
     return None
 
 
 ENGINES = [
     dict(name="baton-scheduler", path="/verif/harness/src/sched.rs, src/props/mt.rs", serves_properties=["C04"], kind_free_text="runtime monitoring: real threads, one running at a time, seeded scheduler switching at the cfg(a10_verif) hook points; reproducible schedules"),
     dict(name="pure-sweep", path="/verif/harness/src/props/c14.rs", serves_properties=["C14"], kind_free_text="differential sweep of pure functions against a reference model, natively and under Miri"),
-    dict(name="simk-explorer", path="/verif/harness (scenarios c01..c09 on src/simk, src/world.rs, src/props/generic.rs)", serves_properties=["C01", "C02", "C03", "C05", "C06", "C09", "C10", "C15"], kind_free_text="runtime monitoring: real a10 driven single-threaded against an in-process simulated io_uring kernel with adversarial completion timing; boundary oracles (allocator monitor, waker ledger, descriptor ledger, request log)"),
+    dict(name="simk-explorer", path="/verif/harness (scenarios c01..c09 on src/simk, src/world.rs, src/props/generic.rs)", serves_properties=["C01", "C02", "C03", "C05", "C06", "C07", "C09", "C10", "C12", "C15", "C18"], kind_free_text="runtime monitoring: real a10 driven single-threaded against an in-process simulated io_uring kernel with adversarial completion timing; boundary oracles (allocator monitor, waker ledger, descriptor ledger, request log)"),
 ]
 
 _NOTE = "trusted base: simk's model of the io_uring kernel (independent ABI table, DESIGN.md 2.2), the five a10_verif hook points, the harness monitors; judged only on the histories generated for the given VERIF_SEED"
@@ -149,6 +176,15 @@ CLAIMS = {
     "C15": dict(level="exploration", engine="simk-explorer", design_ref="DESIGN.md 4 C15", note=_NOTE,
                 technique="differential testing against a capacity-bounded Vec<u8> model with canaries around the slot, in debug and release profiles",
                 text="Random edit sequences on kernel-filled ReadBufs are compared call by call with a Vec<u8> of fixed capacity, including which ranges must panic (Vec::drain semantics) and that a rejected call leaves the buffer untouched; all other pool slots carry canaries; the buffer-ring entry written at release must name the slot the kernel selected. Run in both build profiles because overflow checks differ."),
+    "C07": dict(level="exploration", engine="simk-explorer", design_ref="DESIGN.md 4 C07", note=_NOTE + "; the close(2) interposer sees every close in the process",
+                technique="descriptor ledger (issued -> owned -> closed(how)) fed by a close(2) interposer and the simulated kernel; never-reused descriptor numbers; known findings keyed by (opcode, life-cycle state)",
+                text="Every descriptor the simulated kernel hands out is a real, never-reused number; every close in the process (a10's synchronous fallback, OwnedFd drops, IORING_OP_CLOSE, files-update) is an event. Double closes, closes of the wrong kind, closes of standard streams, descriptors returned with the wrong kind, and descriptors still open after everything was dropped are reported per opcode and life-cycle state. The unchanged tree has known findings (results of abandoned/uncollected operations, dropped Close futures), listed in KNOWN_FINDINGS.txt."),
+    "C12": dict(level="fault_enumeration", engine="simk-explorer", design_ref="DESIGN.md 4 C12", note=_NOTE,
+                technique="exhaustive enumeration of drop orders with four ledgers (mappings, descriptors, allocations, kernel tables) checked after each history",
+                text="All permutations of dropping the objects of four object sets, crossed with how the ring's final sync-cancel ends, are executed on the simulated kernel; after each, every mapped region must have been unmapped exactly once with its own length, no request may be in flight or queued after Ring's drop returned, no buffer ring may stay registered, no descriptor may be left open, no block allocated inside a10 may be live, nothing may be freed while the kernel holds it. Exhaustive within these sets."),
+    "C18": dict(level="fault_enumeration", engine="simk-explorer", design_ref="DESIGN.md 4 C18", note=_NOTE,
+                technique="exhaustive enumeration of configurations x kernel refusal points with descriptor/mapping/allocation ledgers and parameter-block decoding",
+                text="Every configuration combination is built against every scripted kernel answer; a failing build must leave no ring descriptor, no mapping and no allocation behind, a successful one must have passed exactly the configured flags/sizes/cpu/idle/wq_fd to the kernel, must use the granted (not requested) sizes and seeded ring offsets (proved by a read round trip across the index wrap), must refuse submissions while disabled and work after enable(). Exhaustive within the listed space."),
     "C09": dict(level="exploration", engine="simk-explorer", design_ref="DESIGN.md 4 C09", note=_NOTE,
                 technique="fault injection of EINTR/ECANCELED completions with byte-for-byte comparison of re-issued submissions",
                 text="More than half of all completions in this scenario are EINTR/ECANCELED; the caller must never observe them, every re-issued submission must be byte-identical (opcode, fd, flags, offsets, addresses, lengths, user_data) to the first, failed attempts scribble the buffers so mixed data would show, and the value must be the last attempt's."),
